@@ -122,6 +122,11 @@ func runCase(c caseSpec) []failure {
 		case histSibling:
 			logger.Info("c06 ordinary info")
 			sibling.DPanic("c06 production dpanic on a sibling logger sharing the core")
+		case histStopped:
+			for _, stop := range w.stoppers {
+				stop()
+			}
+			logger.Info("c06 ordinary info after Stop")
 		}
 		// ---- marks: what follows belongs to this occurrence
 		for _, s := range w.sinks {
@@ -559,7 +564,7 @@ func main() {
 		dersSmall = derivations(true)[:3]
 	}
 	var histClock [][2]string
-	for _, h := range []string{histNone, histOrdinary, histSibling} {
+	for _, h := range []string{histNone, histOrdinary, histSibling, histStopped} {
 		for _, cl := range clockModes {
 			histClock = append(histClock, [2]string{h, cl})
 		}
@@ -679,7 +684,7 @@ func main() {
 	run.Finish(map[string]any{
 		"evaluations":                        evals,
 		"distinct_nontrivial":                len(distinct),
-		"rule":                               "every in-process case is a HISTORY on one logger/core: the terminal call is made 3 times on the same logger (the panic recovered / the stubbed exit returned from / the goroutine of a Goexit replaced in between), each time preceded by ordinary entries (none | info+error | info + a non-terminal production DPanic on a sibling logger sharing the core), under an injected clock (real time.Now stamps well within a second | identical | 1ns apart | 1ns backwards | 1h backwards); the terminal action and the sink state at the moment of the action (line in the underlying sink below any BufferedWriteSyncer - 256KiB/4096/16 byte buffers, 1h flush interval - and Sync after the last Write, the line carrying the time the clock returned for that very entry) are checked for EVERY occurrence; the (entries-before, clock) combination rotates over the cases so that each (kind group, level) meets all 15 combinations. Cases: in-process: four groups of logger kinds (healthy core compositions; cores with failing sinks - Write failing always / from the k-th write, tees in both orders, buffered over a failing sink, failing Sync; loggers built by zap.Config over base x DisableStacktrace x DisableCaller x Level x Sampling with Development as the development dimension; the preset constructors NewProduction/NewDevelopment/NewExample), each as the full product kinds x development x hook settings (panic hook x fatal hook; quick pairs the i-th choices, thorough the full product) x logger derivations (crossed in thorough, rotated with the call forms in quick) x call forms (front-end method x via x level x argument shape, including blank shapes: empty message, empty template, no arguments, and for the std-log bridge empty / white-space-only / padded text), every case run on the real code with the exit stubbed; real-process: sink family x front end x level in a re-executed child leaving through the real os.Exit / uncaught panic; concurrent: every schedule within the preemption bound of one thread making a fatal / panic / development-dpanic call while one or two other threads sync and log through the same logger, over Lock, CombineWriteSyncers(1), BufferedWriteSyncer, Lock(BufferedWriteSyncer) and a tee, the hook recording what is durable in the sink when the terminal action starts. distinct = distinct (kind group, front-end method, level+entry condition, governing hook choice, development, expected action, blank/non-blank message) classes plus distinct child configurations; every class asserts a terminal action (or its absence for DPanic outside development) and the sink state at that moment",
+		"rule":                               "every in-process case is a HISTORY on one logger/core: the terminal call is made 3 times on the same logger (the panic recovered / the stubbed exit returned from / the goroutine of a Goexit replaced in between), each time preceded by ordinary entries (none | info+error | info + a non-terminal production DPanic on a sibling logger sharing the core | every BufferedWriteSyncer of the case stopped, then info), under an injected clock (real time.Now stamps well within a second | identical | 1ns apart | 1ns backwards | 1h backwards); the terminal action and the sink state at the moment of the action (line in the underlying sink below any BufferedWriteSyncer - 256KiB/4096/16 byte buffers, 1h flush interval - and Sync after the last Write, the line carrying the time the clock returned for that very entry) are checked for EVERY occurrence; the (entries-before, clock) combination rotates over the cases so that each (kind group, level) meets all 20 combinations. Cases: in-process: four groups of logger kinds (healthy core compositions; cores with failing sinks - Write failing always / from the k-th write, tees in both orders, buffered over a failing sink, failing Sync; loggers built by zap.Config over base x DisableStacktrace x DisableCaller x Level x Sampling with Development as the development dimension; the preset constructors NewProduction/NewDevelopment/NewExample), each as the full product kinds x development x hook settings (panic hook x fatal hook; quick pairs the i-th choices, thorough the full product) x logger derivations (crossed in thorough, rotated with the call forms in quick) x call forms (front-end method x via x level x argument shape, including blank shapes: empty message, empty template, no arguments, and for the std-log bridge empty / white-space-only / padded text), every case run on the real code with the exit stubbed; real-process: sink family x front end x level in a re-executed child leaving through the real os.Exit / uncaught panic; concurrent: every schedule within the preemption bound of one thread making a fatal / panic / development-dpanic call while one or two other threads sync and log through the same logger, over Lock, CombineWriteSyncers(1), BufferedWriteSyncer, Lock(BufferedWriteSyncer) and a tee, the hook recording what is durable in the sink when the terminal action starts. distinct = distinct (kind group, front-end method, level+entry condition, governing hook choice, development, expected action, blank/non-blank message) classes plus distinct child configurations; every class asserts a terminal action (or its absence for DPanic outside development) and the sink state at that moment",
 		"samples":                            samples,
 		"concurrent_drivers":                 cs.drivers,
 		"concurrent_schedules":               cs.execs,
@@ -693,7 +698,7 @@ func main() {
 		"child_runs":                         len(todo),
 		"terminal_calls_checked":             inproc*occurrences + len(todo),
 		"occurrences_per_case":               occurrences,
-		"entries_before_each_terminal_call":  []string{histNone, histOrdinary, histSibling},
+		"entries_before_each_terminal_call":  []string{histNone, histOrdinary, histSibling, histStopped},
 		"clock_modes":                        clockModes,
 		"group_level_history_clock_classes":  len(comboSeen),
 		"group_cases":                        groupCases,
